@@ -48,10 +48,14 @@ func Main(prop string) {
 			plan.OPASample, plan.GenN, plan.MutN, plan.SingleFile = 1000, 400, 400, 24
 		case tier == "quick" && locate:
 			plan.OPASample, plan.GenN, plan.MutN, plan.SingleFile, plan.BundleSample = 260, 110, 110, 6, 90
+			// every module is linted five times here (k-shifts): a sample of each systematic family, all of them in C03
+			plan.FamilySample = 90
 		case !locate:
 			plan.OPASample, plan.GenN, plan.MutN, plan.SingleFile, plan.Stress = 0, 4000, 4000, 200, 4
+			plan.Deep = true
 		default:
 			plan.OPASample, plan.GenN, plan.MutN, plan.SingleFile, plan.Stress = 0, 2500, 2500, 100, 3
+			plan.Deep = true
 		}
 		if locate {
 			job.Shifts = []int{1, 3, 10, 100}
